@@ -15,3 +15,8 @@ func VerifPipeIDsInUse() []uint32 { return core.VerifPipeIDsInUse() }
 
 // VerifPipesListed returns the ids of the pipes listed by the socket.
 func VerifPipesListed(s mangos.Socket) []uint32 { return core.VerifPipesListed(s) }
+
+// VerifPipeIDSetNext, VerifPipeIDGet, VerifPipeIDFree drive the pipe id allocator directly.
+func VerifPipeIDSetNext(next uint32) { core.VerifPipeIDSetNext(next) }
+func VerifPipeIDGet() uint32         { return core.VerifPipeIDGet() }
+func VerifPipeIDFree(id uint32)      { core.VerifPipeIDFree(id) }
